@@ -1471,6 +1471,18 @@ def run(case, want_lines):
                     viol.append(dict(clause="C02/changed-object-not-dirty", signature="C02/changed-object-not-dirty/%s.%s" % (kind, name),
                                      step=step))
                 touched_since.append((i, mark, kind, name))
+            if op[0] != "same":
+                # the first sentence of the property for WHICHEVER object's own data differ after the step - the receiver,
+                # an object the mutator edits on the side (glyph lib, image), one a callback wrote (the font lib through the
+                # glyph order, also when a held notification is released): it is dirty now, and owes the whole chain
+                opname = name if op[0] == "touch" else op[0]
+                for j in sorted(j for j, v in before_fp.items() if j in after_attached and after_fp.get(j) != v):
+                    if j not in after_dirty:
+                        viol.append(dict(clause="C02/data-changed-not-dirty", signature="C02/data-changed-not-dirty/%s.%s/%s" % (
+                            kind, opname, tree.nodes[j][1]), step=step, node=j))
+                        break
+                    if (j, mark, kind, opname) not in touched_since:
+                        touched_since.append((j, mark, kind, opname))
             if not active_holds():
                 # nothing held anywhere: every owed propagation must be complete now
                 for (t, m, tk, tn) in touched_since:
